@@ -23,7 +23,7 @@ META = {
                  'atom ids unbounded integers; 2 interaction sets covering bonds/angles/dihedrals/impropers/virtual_sitesn/'
                  'exclusions/constraints/position_restraints with ifdef/ifndef guards, groups, comments, versions, zero-valued '
                  'numeric parameters; charge and mass present or absent',
-        'thorough': '5 atoms, 4 interaction sets',
+        'thorough': '5 atoms with <= 3 atom ids, 4 interaction sets',
     },
     'stubs': [],
     'assumptions': ['resid, charge_group, charge, mass are concrete: the writer renders them with format() (C boundary); the '
@@ -226,8 +226,8 @@ def cases(tier):
         for has_id in itertools.product((True, False), repeat=n):
             for iset in isets:
                 k += 1
-                if tier == 'thorough' and sum(has_id) == 5 and k % 2:
-                    continue
+                if tier == 'thorough' and sum(has_id) > 3:
+                    continue        # 5 atoms: at most 3 atom ids (orderings of 4-5 ids cost 75-541 paths per case)
                 if tier == 'quick' and iset == 'B' and layout != 'sparse':
                     continue
                 out.append({'fn': 'check_roundtrip',
